@@ -15,6 +15,22 @@ def _rt(cmd, quick, thorough):
 
 PLANS = {}
 
+
+def _c01_sweeps(m, tier, seed, rundir):
+    # exhaustive: all 2^32 i32 through the zig-zag transform (vs the document's arithmetic definition) and all 2^32 f32 bit
+    # patterns through the interleaved array writer/reader (vs the document's byte layout), via the cfg hook wrappers
+    for what in ('i32', 'f32'):
+        m.add_results(core.run_sharded('sweep', ['--what', what], SH, os.path.join(rundir, 'sweep-' + what)), 'sweep ' + what)
+    m.add_results(core.run_sharded('sweep', ['--what', 'i64', '--seed', seed, '--count', (1 << 22) if tier == 'quick' else (1 << 28)], SH,
+                                   os.path.join(rundir, 'sweep-i64')), 'sweep i64')
+    m.extra['exhaustive_parts'] = 'all 2^32 i32 (zig-zag vs the arithmetic definition in docs/binary.md) and all 2^32 f32 bit patterns (interleaved array layout and round trip)'
+
+
+def _c02_sweep(m, tier, seed, rundir):
+    m.add_results(core.run_sharded('sweep', ['--what', 'xmlf', '--seed', seed, '--mantissas', 2048 if tier == 'quick' else 32768], SH,
+                                   os.path.join(rundir, 'sweep-xmlf')), 'sweep xml floats')
+    m.extra['float_text_sweep'] = 'every f32 exponent x {boundary mantissas + sampled mantissas} x both signs, and every f64 exponent likewise, through decimal XML text'
+
 PLANS['C01'] = {
     'level': 'exploration',
     'rule': ('seeded random DOMs (shape, classes known/unknown, database-driven and unknown properties, all binary value types '
@@ -25,6 +41,7 @@ PLANS['C01'] = {
     'assumptions': ['generator reach (see coverage.observed)', 'oracle in harness/src/expect.rs + dbwalk.rs (independent walk of rbx_reflection types)',
                     'rotation bases derived from docs/binary.md table (harness/src/rot.rs)'],
     'run': lambda m, tier, seed, rundir, extra: (_rt('c01', 4000, 400000)(m, tier, seed, rundir, extra),
+                                                 _c01_sweeps(m, tier, seed, rundir),
                                                  [core.valgrind_leg(m, 'C01', ['c01', '--seed', seed + k, '--count', 60, '--shard', k, '--nshards', 8], rundir, f'c01-{k}') for k in range(8)]
                                                  if tier == 'thorough' else None),
     'claim': ('held on N generated DOMs x 3 compression modes: every decoded dump equalled the dump the statement predicts from the abstract input '
@@ -40,7 +57,7 @@ PLANS['C02'] = {
              'WriteUnknown+ReadUnknown, NoReflection+NoReflection; NaN compared as a class; non-trivial = >=2 written instances and >=1 property'),
     'floor': {'quick': 2000, 'thorough': 100000},
     'assumptions': ['generator reach (see coverage.observed)', 'oracle in harness/src/expect.rs'],
-    'run': _rt('c02', 6000, 400000),
+    'run': lambda m, tier, seed, rundir, extra: (_rt('c02', 6000, 400000)(m, tier, seed, rundir, extra), _c02_sweep(m, tier, seed, rundir)),
     'claim': ('held on N generated DOMs under the three option pairings that keep a property: decoded dump equals the statement-derived expectation '
               '(names incl. outer whitespace, floats exact through decimal text, INF/NAN, refs, SharedStrings, the documented type changes only).'),
     'note': 'trusted: harness generators and oracle; strings restricted to XML 1.0 Char; NaN compared as a class',
